@@ -274,6 +274,28 @@ theorem C03_operators_pop_clear_on_the_store (st : Store) (h : st.WF) (s : Nat) 
         simpa using (List.nodup_cons.mp hn).1
   · rw [clear, get_set_self st s _ hs, clearL_eq_nil]
 
+/-- A member that dies (removed from its model, no reference left in the program) is gone from **every** set
+    at once — the set it was first put in and every set derived from it — and nothing else changes: each set
+    keeps its other members in their order, no set gains a member, attributes and generator are untouched,
+    sets stay duplicate-free. -/
+theorem C03_dead_member_leaves_every_set (st : Store) (h : st.WF) (a : Nat) :
+    (kill st a).sets.length = st.sets.length ∧
+    (∀ s, (kill st a).get s = (st.get s).filter (· ≠ a)) ∧ (∀ s, a ∉ (kill st a).get s) ∧
+    (kill st a).WF ∧ (kill st a).pop = st.pop ∧ (kill st a).rng = st.rng := by
+  have hget : ∀ s, (kill st a).get s = (st.get s).filter (· ≠ a) := by
+    intro s
+    simp only [kill, Store.get, List.getElem?_map]
+    cases hs : st.sets[s]? with
+    | none => simp
+    | some l =>
+      have hn := h l (List.mem_of_getElem? hs)
+      simp only [Option.map_some, Option.getD_some]
+      rw [hn.erase_eq_filter]
+      apply List.filter_congr
+      intro x _
+      by_cases hx : x = a <;> simp [hx]
+  refine ⟨by simp [kill], hget, fun s => by rw [hget]; simp, applyOp_wf h (.kill a), rfl, rfl⟩
+
 /-- length, iteration, membership and indexing agree: all four read the one member list. -/
 theorem C03_len_iter_contains_getitem_agree (st : Store) (s : Nat) :
     len st s = (st.get s).length ∧ (∀ a, contains st s a = true ↔ a ∈ st.get s) ∧
@@ -288,8 +310,8 @@ theorem C03_len_iter_contains_getitem_agree (st : Store) (s : Nat) :
 /-- No history of set operations ever makes a set list a member twice: starting from sets without
     duplicates, after any sequence of `AgentSet(...)`, `select`, `shuffle`, `sort`, `groupby`, `set`, `add`,
     `discard`, `remove`, `|` `&` `-` `^` and their in-place forms (with sets or with plain iterables that repeat
-    agents), `pop`, `clear` (in place or copying, on original or derived sets, raising or not) every set is
-    duplicate-free. -/
+    agents), `pop`, `clear`, and deaths of members (in place or copying, on original or derived sets, raising or
+    not) every set is duplicate-free. -/
 theorem C03_no_duplicates_all_histories (st : Store) (h : st.WF) (ops : List SOp) :
     (ops.foldl applyOp st).WF := by
   induction ops generalizing st with
@@ -400,6 +422,7 @@ example : interL [0, 1, 2, 3, 4] [4, 4, 2, 0] = [4, 2, 0] ∧ iandL [0, 1, 2, 3,
     ixorL [0, 1, 2] [4, 4, 1, 3] false = [0, 2, 4, 3] := by decide
 example : eqL [0, 1, 2] [2, 0, 1] = true ∧ ltL [0, 1] [2, 0, 1] = true ∧ leL [0, 3] [2, 0, 1] = false := by decide
 example : indexL [3, 1, 2, 5, 0] 2 (-3) none = some 2 ∧ indexL [3, 1, 2, 5, 0] 2 0 (some (-3)) = none := by decide
+example : (kill (select demo 0 none (some 0) .inf false).1 2).sets = [[0, 1, 3, 4], [0, 1, 4]] := by decide
 example : (setop demo .xor 0 (.list [4, 4, 7])).1.get 1 = [0, 1, 2, 3, 7] ∧
     (pop demo 0).toOption.map (·.2) = some 0 := by decide
 
